@@ -248,9 +248,40 @@ func TestC13(t *testing.T) {
 		first := inlineBody(templates[0])
 		text, _ := GenText(t, nil, first, false, 12)
 
+		// name collision: the command defines, before it references the pattern, an inline
+		// subroutine with the same name as one *inside* the stored pattern (names inside a
+		// stored pattern are local to it)
+		collide := ""
+		var findSub func(n *Node)
+		findSub = func(n *Node) {
+			if n == nil || collide != "" {
+				return
+			}
+			if n.K == KSub {
+				collide = n.S
+				return
+			}
+			for _, k := range n.Kids {
+				findSub(k)
+			}
+			findSub(n.Body)
+		}
+		findSub(B)
+		if collide != "" && rapid.Bool().Draw(t, "collide") {
+			st.Count("name_collision_cases")
+		} else {
+			collide = ""
+		}
+		prefixSub := func(name string) *Node {
+			return &Node{K: KSub, S: name, Kids: []*Node{{K: KLoop, Min: 0, Max: 1, Body: &Node{K: KLit, S: "q"}}}}
+		}
 		var inlineCmds, subCmds, setCmds []string
 		for ci, tpl := range templates {
-			inlineCmds = append(inlineCmds, renderCommand("all", inlineBody(tpl)))
+			ib := inlineBody(tpl)
+			if collide != "" {
+				ib = append([]*Node{prefixSub(fmt.Sprintf("zz%d", ci))}, ib...)
+			}
+			inlineCmds = append(inlineCmds, renderCommand("all", ib))
 			// {B} = s at the first reference of this command, calls afterwards
 			seen := false
 			sname := fmt.Sprintf("s%d", ci)
@@ -264,8 +295,14 @@ func TestC13(t *testing.T) {
 					return &Node{K: KCall, S: sname}
 				}))
 			}
+			if collide != "" {
+				sb = append([]*Node{prefixSub(fmt.Sprintf("zz%d", ci))}, sb...)
+			}
 			subCmds = append(subCmds, renderCommand("all", sb))
 			var gb []*Node
+			if collide != "" {
+				gb = append(gb, prefixSub(collide))
+			}
 			for _, n := range tpl {
 				gb = append(gb, substitute(n, func() *Node { return &Node{K: KGlobal, S: "gp"} }))
 			}
